@@ -1,4 +1,7 @@
 """C05 — DSU tracks connectivity and sizes and stays log-depth (engine `dsu`)."""
+import os
+import re
+
 ID = "C05"
 ENGINE = "dsu"
 CRATE = "e_dsu"
@@ -9,11 +12,11 @@ PROFILES = ["release"]
 SHRINK_SEP = ";"
 RULE = ("cases are histories `n0 ; op ; ...` over un/par/check/size/reset/clone/swap/dump: (1) every union-only history (all orders and "
         "orientations) for small n and depth (quick: n=3 to depth 4, n=4 to 3, n=5 to 2, a 1/97 sample of n=5 depth 5; thorough: n=3 to 6, "
-        "n=4 to 5, n=5 to 4, n=6 to 3, 1/7 sample of n=5 depth 5), each followed by check of every pair, size and par of every element and two "
-        "dumps; (2) every history over the whole op alphabet incl. resets growing/shrinking, clone, swap (n=2,3, depth 3; thorough depth 4); "
+        "n=4 to 5, n=5 to 4, n=6 to 3, 1/7 sample of n=5 depth 5), each followed by a dump (depth measured BEFORE any lookup), check of every pair, size and par of every element and two more "
+        "dumps; (2) every in-range history over the whole op alphabet incl. resets growing/shrinking, clone, swap (n=2,3, depth 3; thorough depth 4; histories that index beyond the current size are skipped there, the observation suffix uses the final size); "
         "(3) random histories n<=12 up to 200 ops (1.5k / 30k); (4) adversarial orders (binomial worst case on block ends, chains and stars in "
         "both argument orders, random, joined halves, with resets and clones) for every n in 2..40 and around powers of two up to 1024 "
-        "(thorough: up to 10^5, then 10^6 and 2^20); (5) a small out-of-range stream (S any). Compared: every return value; par through the "
+        "(thorough: up to 10^5, then 10^6 and 2^20); (5) randmix (un/par/size/check interleaved on random elements) at every adversarial size; (6) a small out-of-range stream: the out-of-range op ends the history, its view/spec token is `ood`, everything before it is still compared. Compared: every return value; par through the "
         "representative rule; the parent forest read from format!(\"{:?}\", dsu.clone()) -> depth(v) <= log2(size of its root) for every v, "
         "and p/sz arrays against the model's. non-trivial = distinct in-domain history containing at least one union")
 ASSUMPTIONS = [
@@ -26,10 +29,10 @@ MANIFEST = {
     "text": ("Lean 4 theorems about the executable array model of DSU, for every element count and every history of "
              "un/par/check/size/reset/clone/swap: the invariant (parents in range, a rank function increasing along parent links with "
              "2^rank <= size at roots, size at a root = number of vertices below it) is established by new/reset and preserved by every "
-             "operation; find terminates with fuel n (depth <= log2 n), returns the root and keeps every vertex's root; check = equivalence "
+             "operation; find terminates within log2 n + 1 frames (the executed model runs every find with exactly that budget), returns the root and keeps every vertex's root; check = equivalence "
              "closure of the unions since the last reset, un returns true iff the classes differed, size = cardinality of the class, the "
              "representative is a member of its class, the same for all members and stable until a union joins two classes; forest depth "
-             "<= log2(size). The hand-written model is tied to rlib_dsu by a differential correspondence run on every check."),
+             "<= log2(class size) in the state reached by every valid history (history_depth) and hence in every intermediate state. The hand-written model is tied to rlib_dsu by a differential correspondence run on every check."),
     "note": ("Trusted: Lean kernel, axioms propext/Classical.choice/Quot.sound, the hand-written model (checked against the code on the generated "
              "histories only), harness and driver plumbing. Residue: real stack limit, usize overflow of sizes (unreachable)."),
     "technique": "Lean 4 proof (rank invariant + refinement of the equivalence closure) of a hand-written model + differential correspondence check against the Rust crate",
@@ -38,4 +41,29 @@ MANIFEST = {
 
 
 def nontrivial(case, rec):
-    return any(k in case for k in ("un ", "chain", "binom", "star", "rand "))
+    return any(k in case for k in ("un ", "chain", "binom", "star", "rand ", "randmix"))
+
+
+def extract(repo):
+    """The forest depth is read from the derived `Debug` of `DSU { p, sz }`.  If the struct no longer has exactly these two
+    fields (or no longer derives Debug/Clone) the harness cannot read the forest: that is a broken correspondence
+    (reported as such, `no-failing-input-found` unless the search finds one), never a property verdict."""
+    path = os.path.join(repo, "rlib", "dsu", "src", "lib.rs")
+    try:
+        src = open(path).read()
+    except OSError as e:
+        return {}, [f"cannot read {path}: {e}"]
+    flat = re.sub(r"\s+", " ", src)
+    m = re.search(r"#\[derive\(([^)]*)\)\] pub struct DSU \{ p: Vec<usize>, sz: Vec<usize>,? \}", flat)
+    params = {"dsu_struct_anchor": bool(m)}
+    problems = []
+    if not m:
+        problems.append("`pub struct DSU { p: Vec<usize>, sz: Vec<usize> }` with a derive no longer matches rlib/dsu/src/lib.rs: "
+                        "the harness reads the parent forest from the derived Debug text of exactly these two fields")
+    else:
+        derives = {d.strip() for d in m.group(1).split(",")}
+        params["derives"] = sorted(derives)
+        for d in ("Clone", "Debug"):
+            if d not in derives:
+                problems.append(f"DSU no longer derives {d}")
+    return params, problems
